@@ -574,6 +574,7 @@ func ruleC06c(c *Ctx) {
 					}
 				}
 				c.check(okParam, name, "continues the chain it was given", p.ipos(i), "receiver is the filter's own chain parameter", "ProcessFilter is called on a chain that is neither local nor the filter's own parameter (a stored or foreign chain)")
+				checkPairPassedOn(c, fn, i)
 			}
 		})
 		// slices handed to a chain: shared lists read-only, or fresh
@@ -675,4 +676,29 @@ func ruleC06d(c *Ctx) {
 		c.note("-", "no http-middleware adapter found", "-", "nothing to decide")
 	}
 	_ = types.Typ
+}
+
+// checkPairPassedOn: a framework filter continues the chain with the very *Request and *Response it received
+// (the objects earlier filters hold), not with copies.
+func checkPairPassedOn(c *Ctx, fn *ssa.Function, i ssa.Instruction) {
+	p := c.P
+	cc := callCommon(i)
+	if len(cc.Args) != 3 {
+		return
+	}
+	name := p.fname(fn)
+	for k, what := range map[int]string{1: "Request", 2: "Response"} {
+		okParam := false
+		src := p.sources(cc.Args[k], provDefault)
+		for _, s := range src {
+			if prm, ok := s.(*ssa.Parameter); ok && isPtrToRestful(prm.Type(), what) && requestShape(prm.Parent().Signature) == "filter-function" {
+				okParam = true
+			} else {
+				okParam = false
+				break
+			}
+		}
+		c.check(okParam, name, "continues the chain with the "+what+" it received", p.ipos(i), "argument is the filter's own *"+what+" parameter",
+			"the chain continues with a different *"+what+" object (a copy or a new wrapper): what later filters and the handler record on it (status, length, attributes) is invisible to the filters that ran before")
+	}
 }
